@@ -184,6 +184,8 @@ fn err_class(title: &str) -> String {
         "unmatched".into()
     } else if title.starts_with("failed to read from the terminal") {
         "terminal".into()
+    } else if title.starts_with("there is no group to end") {
+        "badgroup".into()
     } else {
         format!("other:{title}")
     }
@@ -214,7 +216,7 @@ fn run_vm(main: &str, files: &[(String, String)], term: &[String], script: bool)
             t.add_line(l.clone());
         }
         vm.state.terminal_in = Rc::new(RefCell::new(t));
-        vm.push_source("main.tex", main).unwrap();
+        vm.push_source("main.tex", format!("{PREAMBLE}{main}")).unwrap();
         if script {
             match lib::script::run_to_string(&mut vm) {
                 Ok(s) => RunOut { out: s, err: None },
@@ -236,7 +238,11 @@ fn run_vm(main: &str, files: &[(String, String)], term: &[String], script: bool)
 // ------------------------------------------------------------------------------------------
 
 /// Opaque control sequences. Index = the model's `cs n`. 100+k = `\x<letter k>` (targets of \read).
-const CS_NAMES: &[&str] = &["relax", "iftrue", "iffalse", "else", "fi", "def", "q", "ua", "ub", "gdef"];
+const CS_NAMES: &[&str] = &["relax", "iftrue", "iffalse", "else", "fi", "def", "q", "ua", "ub", "gdef", "p"];
+
+/// In front of every program run on the VM: `\p` takes one undelimited argument (which may lie
+/// beyond the end of the file that holds `\p`). The line ends in `%`: it yields no token.
+const PREAMBLE: &str = "\\def\\p#1{(#1)}%\n";
 
 fn cs_name(n: i64) -> String {
     if n >= 100 {
@@ -257,6 +263,7 @@ enum W {
     End,
     Call(char),
     Comment, // rd files only
+    Tight,   // `!` after an `i:` word: no space after the file name (an unexpandable cs follows)
 }
 
 fn parse_word(w: &str) -> W {
@@ -270,6 +277,8 @@ fn parse_word(w: &str) -> W {
         W::End
     } else if w == "%" {
         W::Comment
+    } else if w == "!" {
+        W::Tight
     } else if let Some(n) = w.strip_prefix("i:") {
         assert!(valid_written_name(n), "bad file name {n}");
         W::Input(n.to_string())
@@ -372,6 +381,7 @@ fn show_word(w: &W) -> String {
         W::End => "e".into(),
         W::Call(c) => format!("m:{c}"),
         W::Comment => "%".into(),
+        W::Tight => "!".into(),
     }
 }
 
@@ -397,7 +407,24 @@ fn normalize(ws: &[W], is_body: bool) -> Vec<W> {
             out.pop();
         }
     }
+    // `!` only between a file name and an unexpandable control sequence (\relax \def \ua \ub):
+    // the name scanner expands, so anything else would not end the name there
+    let mut k = 0;
+    while k < out.len() {
+        if out[k] == W::Tight {
+            let ok = k > 0 && matches!(out[k - 1], W::Input(_)) && matches!(out.get(k + 1), Some(W::Cs(0 | 5 | 7 | 8)));
+            if !ok {
+                out.remove(k);
+                continue;
+            }
+        }
+        k += 1;
+    }
     out
+}
+
+fn n_items(ws: &[W]) -> i64 {
+    ws.iter().filter(|w| **w != W::Tight).count() as i64
 }
 
 /// TeX text of a line / macro body.
@@ -418,8 +445,9 @@ fn render_words(ws: &[W], is_body: bool) -> String {
             W::Input(n) => {
                 s.push_str("\\input ");
                 s.push_str(n);
-                // the end of the line terminates the name as well as a space does
-                if !last || is_body {
+                // the end of the line terminates the name as well as a space does, and so does
+                // a control sequence that is not expandable (`!`)
+                if (!last || is_body) && ws.get(i + 1) != Some(&W::Tight) {
                     s.push(' ');
                 }
             }
@@ -430,6 +458,7 @@ fn render_words(ws: &[W], is_body: bool) -> String {
                 s.push(' ');
             }
             W::Comment => s.push('%'),
+            W::Tight => {}
         }
     }
     s
@@ -455,7 +484,7 @@ fn eol_token(ws: &[W], terminal: bool) -> Option<i64> {
         }
         Some(W::Chr(_)) | Some(W::Bg) | Some(W::Eg) => Some(T_SP),
         Some(W::Sp) => None,
-        Some(W::Cs(_)) | Some(W::End) | Some(W::Call(_)) | Some(W::Comment) => None,
+        Some(W::Cs(_)) | Some(W::End) | Some(W::Call(_)) | Some(W::Comment) | Some(W::Tight) => None,
         Some(W::Input(_)) => None, // consumed as the end of the file name
     }
 }
@@ -480,6 +509,7 @@ fn enc_atom(w: &W, names: &mut Names, out: &mut Vec<i64>) {
         W::Cs(n) => out.push(1000 + n),
         W::Input(n) => out.push(2000 + names.id(n)),
         W::End => out.push(A_END),
+        W::Tight => {}
         W::Call(_) | W::Comment => panic!("not an atom"),
     }
 }
@@ -495,7 +525,17 @@ impl SrcFile {
     fn text(&self) -> String {
         let mut s = String::new();
         for (i, l) in self.lines.iter().enumerate() {
+            // blanks that the lexer must not turn into tokens: at the start of a line (also of
+            // an otherwise empty one) and at its end; which lines get them is a fixed function
+            // of the case
+            let h = fxhash(&format!("{}:{i}:{}", self.name, l.len())) % 5;
+            if h == 0 || h == 1 {
+                s.push_str(if h == 0 { " " } else { "   " });
+            }
             s.push_str(&render_words(l, false));
+            if h == 1 || h == 2 {
+                s.push_str("  ");
+            }
             if i + 1 < self.lines.len() || self.nl {
                 s.push('\n');
             }
@@ -645,13 +685,13 @@ impl InCase {
         out.push(f.lines.len() as i64);
         for l in &f.lines {
             let eol = eol_token(l, false);
-            out.push(l.len() as i64 + eol.is_some() as i64);
+            out.push(n_items(l) + eol.is_some() as i64);
             for w in l {
                 match w {
                     W::Call(c) => {
                         let b = self.body_of(*c);
                         out.push(I_CALL);
-                        out.push(b.len() as i64);
+                        out.push(n_items(b));
                         for a in b {
                             enc_atom(a, names, out);
                         }
@@ -784,8 +824,12 @@ enum ROp {
     Open(i64, String),
     Close(i64),
     Read(i64, char),
+    GRead(i64, char), // \global\read
     IfEof(i64),
     Use(char),
+    SetElc(i64), // \endlinechar=v (-1, 13 or a character of category other)
+    BGroup,
+    EGroup,
 }
 
 #[derive(Clone, Debug)]
@@ -806,6 +850,17 @@ fn parse_rop(w: &str) -> ROp {
     } else if let Some(r) = w.strip_prefix('r') {
         let (n, x) = r.split_once(':').expect("r<n>:<x>");
         ROp::Read(num(n), x.chars().next().unwrap())
+    } else if let Some(r) = w.strip_prefix('R') {
+        let (n, x) = r.split_once(':').expect("R<n>:<x>");
+        ROp::GRead(num(n), x.chars().next().unwrap())
+    } else if let Some(r) = w.strip_prefix('E') {
+        let v = num(r);
+        assert!(v == -1 || v == 13 || v == 42 || v == 43, "\\endlinechar: -1, 13, 42 or 43");
+        ROp::SetElc(v)
+    } else if w == "{" {
+        ROp::BGroup
+    } else if w == "}" {
+        ROp::EGroup
     } else if let Some(r) = w.strip_prefix('?') {
         ROp::IfEof(num(r))
     } else if let Some(r) = w.strip_prefix("u:") {
@@ -820,6 +875,10 @@ fn show_rop(o: &ROp) -> String {
         ROp::Open(n, f) => format!("o{n}:{f}"),
         ROp::Close(n) => format!("c{n}"),
         ROp::Read(n, x) => format!("r{n}:{x}"),
+        ROp::GRead(n, x) => format!("R{n}:{x}"),
+        ROp::SetElc(v) => format!("E{v}"),
+        ROp::BGroup => "{".into(),
+        ROp::EGroup => "}".into(),
         ROp::IfEof(n) => format!("?{n}"),
         ROp::Use(x) => format!("u:{x}"),
     }
@@ -846,7 +905,7 @@ impl RdCase {
         }
         for f in &c.files {
             for l in &f.lines {
-                assert!(l.iter().all(|w| !matches!(w, W::Input(_) | W::End | W::Call(_))), "rd files hold plain tokens");
+                assert!(l.iter().all(|w| !matches!(w, W::Input(_) | W::End | W::Call(_) | W::Tight)), "rd files hold plain tokens");
                 assert!(l.iter().all(|w| !matches!(w, W::Cs(n) if ![0, 7, 8].contains(n))), "rd files: \\relax \\ua \\ub only");
             }
         }
@@ -874,11 +933,15 @@ impl RdCase {
                 enc_atom(w, &mut names, &mut v);
             }
         }
-        if let Some(t) = eol_token(l, terminal) {
-            v.push(t);
-        }
+        // what the *default* end-of-line character becomes (the model attaches the current one)
+        let eol = match eol_token(l, terminal) {
+            Some(t) => t,
+            None if l.last() == Some(&W::Comment) || (terminal && l.is_empty()) => 9,
+            None => 0,
+        };
         out.push(v.len() as i64);
         out.extend(v);
+        out.push(eol);
     }
     fn written_names(&self) -> Vec<String> {
         let mut names = Names(vec![]);
@@ -912,6 +975,10 @@ impl RdCase {
                 ROp::Open(n, f) => v.extend([0, *n, names.id(f)]),
                 ROp::Close(n) => v.extend([1, *n]),
                 ROp::Read(n, x) => v.extend([2, *n, 100 + (*x as u8 - b'a') as i64]),
+                ROp::GRead(n, x) => v.extend([8, *n, 100 + (*x as u8 - b'a') as i64]),
+                ROp::SetElc(e) => v.extend([5, *e]),
+                ROp::BGroup => v.push(6),
+                ROp::EGroup => v.push(7),
                 ROp::IfEof(n) => v.extend([3, *n]),
                 ROp::Use(x) => v.extend([4, 100 + (*x as u8 - b'a') as i64]),
             }
@@ -928,6 +995,10 @@ impl RdCase {
                 ROp::Open(n, f) => s.push_str(&format!("\\openin{n}={f} ")),
                 ROp::Close(n) => s.push_str(&format!("\\closein{n} ")),
                 ROp::Read(n, x) => s.push_str(&format!("\\read{n} to\\x{x} ")),
+                ROp::GRead(n, x) => s.push_str(&format!("\\global\\read{n} to\\x{x} ")),
+                ROp::SetElc(v) => s.push_str(&format!("\\endlinechar={v} ")),
+                ROp::BGroup => s.push('{'),
+                ROp::EGroup => s.push('}'),
                 ROp::IfEof(n) => s.push_str(&format!("\\ifeof{n} T\\else F\\fi ")),
                 ROp::Use(x) => s.push_str(&format!("[\\x{x}]")),
             }
@@ -943,6 +1014,7 @@ fn status_class_rd(s: i64) -> Option<String> {
         1 => Some("badstream".into()),
         2 => Some("unmatched".into()),
         3 => Some("terminal".into()),
+        4 => Some("badgroup".into()),
         _ => Some(format!("model-status-{s}")),
     }
 }
@@ -972,6 +1044,8 @@ struct TreeGen<'a> {
     structure: bool,
     max_depth: usize,
     next_name: usize,
+    /// the file just generated ends with `\p`: its argument is the next token of the outer file
+    want_arg: bool,
 }
 
 impl<'a> TreeGen<'a> {
@@ -1047,6 +1121,7 @@ impl<'a> TreeGen<'a> {
                     l.push(W::Input(n.clone()));
                     let f = self.file(n, depth + 1);
                     self.files.push(f);
+                    self.after_input(&mut l);
                 }
                 if ii == nitems {
                     break;
@@ -1067,6 +1142,7 @@ impl<'a> TreeGen<'a> {
                             l.push(W::Input(n.clone()));
                             let f = self.file(n, depth + 1);
                             self.files.push(f);
+                            self.after_input(&mut l);
                         } else if self.r.chance(1, 60) {
                             l.push(W::Input("missing".into()));
                         } else if !self.pure_files.is_empty() {
@@ -1086,7 +1162,21 @@ impl<'a> TreeGen<'a> {
                             }
                         }
                     }
-                    15 => l.push(W::Cs(0)),
+                    15 => {
+                        if self.structure && self.r.chance(1, 2) {
+                            // `\p X` or `\p{XY}`: the braces delimit the argument, they are no group
+                            l.push(W::Cs(10));
+                            let c = self.chr();
+                            if self.r.chance(1, 2) {
+                                l.push(c);
+                            } else {
+                                let d = self.chr();
+                                l.extend([W::Bg, c, d, W::Eg]);
+                            }
+                        } else {
+                            l.push(W::Cs(0))
+                        }
+                    }
                     _ if !self.structure => {
                         let c = self.chr();
                         l.push(c)
@@ -1128,13 +1218,30 @@ impl<'a> TreeGen<'a> {
             if ended {
                 dead = true;
             }
+            // a macro whose argument lies beyond the end of this file
+            if li + 1 == nlines && !ended && depth > 0 && self.structure && self.r.chance(1, 6) {
+                l.push(W::Cs(10));
+                self.want_arg = true;
+            }
             lines.push(l);
         }
         let nl = self.r.chance(2, 3);
         SrcFile { name, nl, lines }
     }
+    /// Directly after an `\input` whose file has just been generated.
+    fn after_input(&mut self, l: &mut Vec<W>) {
+        if self.want_arg {
+            self.want_arg = false;
+            let c = self.chr();
+            l.push(c);
+        } else if self.r.chance(1, 5) {
+            // the name ends at an unexpandable control sequence instead of a space
+            l.push(W::Tight);
+            l.push(W::Cs(*self.r.pick(&[0, 7, 8])));
+        }
+    }
     fn case(r: &'a mut Rng, structure: bool, max_depth: usize) -> InCase {
-        let mut g = TreeGen { r, files: vec![], pure_files: vec![], macros: vec![], open: vec![], structure, max_depth, next_name: 0 };
+        let mut g = TreeGen { r, files: vec![], pure_files: vec![], macros: vec![], open: vec![], structure, max_depth, next_name: 0, want_arg: false };
         for _ in 0..g.r.below(3) {
             g.pure_file(1);
         }
@@ -1301,6 +1408,8 @@ fn gen_rd(r: &mut Rng, wide: bool) -> RdCase {
     }
     let nops = 1 + r.below(if wide { 30 } else { 14 });
     let mut ops = vec![];
+    let rich = r.chance(1, 3);
+    let mut gdepth = 0i64;
     let mut to_open: Vec<i64> = streams.iter().copied().filter(|_| r.chance(5, 6)).collect();
     for _ in 0..nops {
         let n = *r.pick(&streams);
@@ -1310,23 +1419,53 @@ fn gen_rd(r: &mut Rng, wide: bool) -> RdCase {
             ops.push(ROp::Open(n, files[r.below(files.len() as u64) as usize].name.clone()));
             continue;
         }
+        // \endlinechar changes, groups and \global\read in a third of the scripts
+        if rich && r.chance(1, 5) {
+            match r.below(5) {
+                0 | 1 => ops.push(ROp::SetElc(*r.pick(&[-1, 13, 42, 43, 42]))),
+                2 | 3 => {
+                    ops.push(ROp::BGroup);
+                    gdepth += 1;
+                }
+                _ => {
+                    if gdepth > 0 || r.chance(1, 30) {
+                        ops.push(ROp::EGroup);
+                        gdepth = (gdepth - 1).max(0);
+                    }
+                }
+            }
+            continue;
+        }
         ops.push(match r.below(16) {
             0 | 1 => {
                 let f = if r.chance(1, 8) { "zz".to_string() } else { files[r.below(files.len() as u64) as usize].name.clone() };
                 ROp::Open(if r.chance(1, 40) { 16 } else { n }, f)
             }
-            2..=8 => ROp::Read(if r.chance(1, 14) { *r.pick(&[-1, 16, 17, 200]) } else { n }, x),
+            2..=8 => {
+                let k = if r.chance(1, 14) { *r.pick(&[-1, 16, 17, 200]) } else { n };
+                if rich && r.chance(1, 3) {
+                    ROp::GRead(k, x)
+                } else {
+                    ROp::Read(k, x)
+                }
+            }
             9 | 10 => ROp::Use(x),
             11..=13 => ROp::IfEof(if r.chance(1, 40) { 16 } else { n }),
             _ => ROp::Close(if r.chance(1, 40) { 16 } else { n }),
         });
-        if let Some(ROp::Read(_, x)) = ops.last().cloned() {
+        if let Some(ROp::Read(_, x) | ROp::GRead(_, x)) = ops.last().cloned() {
             if r.chance(2, 3) {
                 ops.push(ROp::Use(x));
             }
             if r.chance(1, 2) {
                 ops.push(ROp::IfEof(n));
             }
+        }
+    }
+    for _ in 0..gdepth {
+        ops.push(ROp::EGroup);
+        if r.chance(1, 2) {
+            ops.push(ROp::Use((b'a' + r.below(3) as u8) as char));
         }
     }
     let mut files = files;
@@ -1354,6 +1493,7 @@ struct C19 {
 
 const SIG_ENDINPUT: &str = "in: \\endinput drops the rest of its line";
 const SIG_EXT: &str = "name: an extension in the path part is replaced instead of kept (PathBuf::set_extension)";
+const SIG_ELC: &str = "rd: the first unread line of a stream carries the \\endlinechar of the previous \\read";
 const SIG_EOF: &str = "rd: stream closed after its last real line (TeX: after the appended empty line)";
 
 impl C19 {
@@ -1391,7 +1531,9 @@ impl C19 {
         };
         let parts_code = ask5(drv, &b_code);
         let parts = if b_tex == b_code { parts_code.clone() } else { ask5(drv, &b_tex) };
-        let parts_leg = if b_leg != b_code || b_leg != b_tex { Some(ask5(drv, &b_leg)) } else { None };
+        // Finding C19-c is repaired in /repo (fbe0742): its signature is retired, nothing is
+        // named after the unrepaired resolution any more (set C19_LEGACY_NAMES to get it back).
+        let parts_leg = if std::env::var("C19_LEGACY_NAMES").is_ok() && (b_leg != b_code || b_leg != b_tex) { Some(ask5(drv, &b_leg)) } else { None };
         let (m_status, m_toks) = parse_status_toks(&parts_code[0]);
         let wf = parts[1] == "1";
         let s_lex = parse_i64s(&parts[2]);
@@ -1411,7 +1553,7 @@ TeX: {b_tex:?}"));
             if lits.iter().any(|l| lits.iter().any(|m| *m == format!("{l}.tex"))) {
                 out.tag("name:bare-file-next-to-tex-file");
             }
-            if parts_leg.is_some() {
+            if b_leg != b_code {
                 out.tag("name:legacy-resolution-differs");
             }
         }
@@ -1536,7 +1678,11 @@ TeX: {b_tex:?}"));
                 Ok(e) => {
                     if e != i {
                         let lex = Self::run_stream(&mut cache, &s_lex);
-                        let sig = if lex.as_ref().ok() == Some(&i) && !end_last {
+                        // C19-a only if some \endinput is not last on its line, the model (which
+                        // drops the rest of that line and nothing else) reproduces the run
+                        // exactly, and so does the inlining with exactly that deviation
+                        let m_same = m_status == 0 && Self::run_stream(&mut cache, &m_toks).ok().as_ref() == Some(&i);
+                        let sig = if lex.as_ref().ok() == Some(&i) && !end_last && m_same && b_tex == b_code {
                             SIG_ENDINPUT
                         } else if legacy_explains(&i, &mut cache) {
                             SIG_EXT
@@ -1562,7 +1708,8 @@ TeX: {b_tex:?}"));
                                 || (st == 2 && a.err.as_deref() == Some("toodeep"))
                                 || [2usize, 3].iter().any(|k| run_vm(&render_tokens(&parse_i64s(&pl[*k])), &[], &[], true).ok().as_ref() == Some(&a))
                         });
-                        let sig = if l.as_ref().ok() == Some(&a) && !end_last {
+                        let m_same = m_status == 0 && run_vm(&render_tokens(&m_toks), &[], &[], true).ok().as_ref() == Some(&a);
+                        let sig = if l.as_ref().ok() == Some(&a) && !end_last && m_same && b_tex == b_code {
                             SIG_ENDINPUT
                         } else if leg == Some(true) {
                             SIG_EXT
@@ -1588,7 +1735,7 @@ TeX: {b_tex:?}"));
 
     fn run_rd(&mut self, c: &RdCase, drv: &mut Driver) -> CaseOutcome {
         let mut out = CaseOutcome::default();
-        out.nontrivial = c.ops.iter().any(|o| matches!(o, ROp::Read(..)));
+        out.nontrivial = c.ops.iter().any(|o| matches!(o, ROp::Read(..) | ROp::GRead(..)));
         let written = c.written_names();
         let b_code = self.res.bind(0, &written, &c.files, drv);
         let b_tex = self.res.bind(1, &written, &c.files, drv);
@@ -1597,14 +1744,14 @@ TeX: {b_tex:?}"));
             let req = c.request(&written, b);
             let reply = drv.ask(&req);
             let parts: Vec<String> = reply.split('|').map(|s| s.trim().to_string()).collect();
-            if parts.len() != 2 {
+            if parts.len() != 4 {
                 panic!("driver reply malformed: {reply} (request {req})");
             }
             parts
         };
         let parts_code = ask2(drv, &b_code);
         let parts = if b_tex == b_code { parts_code.clone() } else { ask2(drv, &b_tex) };
-        let parts_leg = if b_leg != b_code || b_leg != b_tex { Some(ask2(drv, &b_leg)) } else { None };
+        let parts_leg = if std::env::var("C19_LEGACY_NAMES").is_ok() && (b_leg != b_code || b_leg != b_tex) { Some(ask2(drv, &b_leg)) } else { None };
         let (m_status, m_toks) = parse_status_toks(&parts_code[0]);
         let (s_status, s_toks) = parse_status_toks(&parts[1]);
         if b_tex != b_code {
@@ -1621,7 +1768,7 @@ TeX: {b_tex:?}"));
             if lits.iter().any(|l| lits.iter().any(|m| *m == format!("{l}.tex"))) {
                 out.tag("name:bare-file-next-to-tex-file");
             }
-            if parts_leg.is_some() {
+            if b_leg != b_code {
                 out.tag("name:legacy-resolution-differs");
             }
         }
@@ -1634,6 +1781,10 @@ TeX: {b_tex:?}"));
                 ROp::Open(n, _) => format!("rd:openin{}", if *n > 15 { "-bad" } else { "" }),
                 ROp::Close(n) => format!("rd:closein{}", if *n > 15 { "-bad" } else { "" }),
                 ROp::Read(n, _) => format!("rd:read{}", if *n < 0 || *n > 15 { "-terminal-index" } else { "" }),
+                ROp::GRead(..) => "rd:global-read".into(),
+                ROp::SetElc(v) => format!("rd:endlinechar={v}"),
+                ROp::BGroup => "rd:begin-group".into(),
+                ROp::EGroup => "rd:end-group".into(),
                 ROp::IfEof(n) => format!("rd:ifeof{}", if *n > 15 { "-bad" } else { "" }),
                 ROp::Use(_) => "rd:use".into(),
             });
@@ -1679,8 +1830,19 @@ TeX: {b_tex:?}"));
                 RunOut { out: show(&toks), err: status_class_rd(st) } == i
             })
         }) == Some(true);
+        let mix = |k: usize| -> RunOut {
+            let (st, toks) = parse_status_toks(&parts_code[k]);
+            RunOut { out: show(&toks), err: status_class_rd(st) }
+        };
         if i != m {
-            let sig = if legacy_explains { SIG_EXT } else { "rd: output differs from the stream model" };
+            let has_elc = c.ops.iter().any(|o| matches!(o, ROp::SetElc(_)));
+            let sig = if legacy_explains {
+                SIG_EXT
+            } else if has_elc && i == mix(3) {
+                SIG_ELC
+            } else {
+                "rd: output differs from the stream model"
+            };
             out.fail(Kind::ImplVsModel, "rd", sig, ctx("I vs M"));
         }
         if m != s {
@@ -1690,8 +1852,19 @@ TeX: {b_tex:?}"));
             // The model deviates from TeX in exactly one documented way (a stream is closed as
             // soon as its last real line has been read: `readFile` vs `texReadFile`); a
             // difference that the model reproduces is that defect, anything else is new.
-            let sig = if i == m {
+            // The model deviates from TeX in exactly one way: a stream is closed as soon as its
+            // last real line has been read (C19-b: `readFile` vs `texReadFile`). The unrepaired
+            // lexer (fix-pending C19-d) additionally gave the first unread line of a stream the
+            // \endlinechar of the previous \read. A known signature is emitted only if the model
+            // (C19-b) / the model with the unrepaired lexer (C19-d) reproduces the run exactly,
+            // and undoing exactly that deviation gives TeX's answer.
+            let has_elc = c.ops.iter().any(|o| matches!(o, ROp::SetElc(_)));
+            let sig = if i == m && b_tex == b_code {
                 SIG_EOF.to_string()
+            } else if b_tex == b_code && has_elc && i == mix(3) && m == s {
+                SIG_ELC.to_string()
+            } else if b_tex == b_code && has_elc && i == mix(3) {
+                format!("{SIG_ELC} + {SIG_EOF}")
             } else if legacy_explains {
                 SIG_EXT.to_string()
             } else {
@@ -1875,7 +2048,7 @@ impl Property for C19 {
             }
         }
         // ---- random
-        let (n_in, n_rd) = if ctx.thorough { (75_000, 100_000) } else { (5_000, 8_000) };
+        let (n_in, n_rd) = if ctx.thorough { (100_000, 140_000) } else { (8_000, 12_000) };
         let mut r = rng.fork();
         for k in 0..n_in {
             let depth = (k % 6) as usize;
@@ -1992,7 +2165,7 @@ impl Property for C19 {
                     for li in 0..f.lines.len() {
                         for wi in 0..f.lines[li].len() {
                             // structure tokens come in units (`\def\q{X}`, …): never split one
-                            if matches!(f.lines[li][wi], W::Cs(_) | W::Bg | W::Eg) || f.lines[li].contains(&W::Cs(5)) {
+                            if matches!(f.lines[li][wi], W::Cs(_) | W::Bg | W::Eg | W::Tight) || f.lines[li].contains(&W::Cs(5)) || f.lines[li].contains(&W::Cs(10)) {
                                 continue;
                             }
                             let mut g = f.clone();
